@@ -34,7 +34,7 @@ prop("C19",
                   "all-zero data is not generated (sigma^2 = 0 makes Thomson's formula 0/0)"],
      title="Multitaper estimates are weighted means of tapered periodograms")
 
-NWS = [2.5, 3, 4, 2, 3.0, 4.0, 2.0, 6, 7.5, 8, 1.5]    # the statement does not bound NW; large NW: leading eigenvalues all 1 - O(1e-16)
+NWS = [2.5, 3, 4, 2, 3.0, 4.0, 2.0, 6, 7.5, 8, 1.5, 2.3, 2.75, 3.4, 1.2]    # the statement does not bound NW; large NW: leading eigenvalues all 1 - O(1e-16)
 
 
 # --------------------------------------------------------------------------
@@ -278,6 +278,8 @@ def _class_body(ctx, case):
     ctx.check(float(np.min(np.real(psd))) >= 0, "PSD has negative value %.3g (method=%s)" % (np.min(np.real(psd)), meth),
               sig={"clause": "nonneg", "method": meth})
     tapers, lam = spectrum.dpss(N, NW, case["k"])
+    ctx.check(np.asarray(tapers).shape == (N, k), "dpss(%d, %r, %r) returns %s tapers, expected %d" % (N, NW, case["k"], np.asarray(tapers).shape, k),
+              sig={"clause": "taper-count"})
     S2 = np.abs(_eigenspectra(np.asarray(tapers), x, nfft)) ** 2            # (k, NFFT), independent of pmtm
     if meth == "unity":
         full = np.mean(S2, axis=0)
@@ -285,6 +287,9 @@ def _class_body(ctx, case):
         full = np.mean(S2 * (np.asarray(lam) / (np.arange(k) + 1.0))[:, None], axis=0)
     else:
         _, w, _ = spectrum.pmtm(x, NW=NW, k=case["k"], NFFT=nfft, method="adapt")
+        ctx.check(np.asarray(w).shape == (nfft, k), "pmtm(NW=%r, k=%r) returns weights of shape %s, but dpss(N, NW, k) returns %d tapers "
+                  "(NFFT=%d): pmtm and dpss disagree on the number of tapers" % (NW, case["k"], np.asarray(w).shape, k, nfft),
+                  sig={"clause": "taper-count"})
         full = np.mean(S2.T * np.real(np.asarray(w)), axis=1)
     exp = _fold(full, nfft, real)
     ctx.close(np.real(psd), exp, "class PSD vs mean over tapers of weight*|eigenspectrum|^2 (method=%s, %s)"
